@@ -320,3 +320,31 @@ func (w *World) parseLibSpecs(dir string) error {
 	}
 	return nil
 }
+
+// closureStoredIn: if variable `name` of fn's parent is assigned exactly once with a closure, return that closure's function.
+func (w *World) closureStoredIn(fn *ssa.Function, name string) *ssa.Function {
+	for p := fn.Parent(); p != nil; p = p.Parent() {
+		for _, b := range p.Blocks {
+			for _, ins := range b.Instrs {
+				a, ok := ins.(*ssa.Alloc)
+				if !ok || a.Comment != name {
+					continue
+				}
+				var val ssa.Value
+				n := 0
+				for _, ref := range *a.Referrers() {
+					if st, ok := ref.(*ssa.Store); ok && st.Addr == ssa.Value(a) {
+						n++
+						val = st.Val
+					}
+				}
+				if n == 1 {
+					if mc, ok := val.(*ssa.MakeClosure); ok {
+						return mc.Fn.(*ssa.Function)
+					}
+				}
+			}
+		}
+	}
+	return nil
+}
